@@ -303,7 +303,8 @@ fn main() {
     // parse sources
     let mut files: BTreeMap<String, File> = BTreeMap::new();
     for (alias, rel) in u.sources.iter() {
-        let p = format!("{}/{}", repo, rel);
+        // sources of dependencies (cargo registry) may be named by absolute path or glob-free `~registry/<crate-dir>/..`
+        let p = if rel.starts_with('/') { rel.clone() } else if let Some(r) = rel.strip_prefix("~registry/") { registry_path(r) } else { format!("{}/{}", repo, rel) };
         let src = std::fs::read_to_string(&p).unwrap_or_else(|e| die(&format!("lost anchor: cannot read {}: {}", p, e)));
         let f = syn::parse_file(&src).unwrap_or_else(|e| die(&format!("parse error in {}: {}", p, e)));
         files.insert(alias.clone(), f);
@@ -631,4 +632,19 @@ pub fn attrs_cfg_pub(attrs: &[Attribute]) -> bool {
 
 pub fn die_pub(msg: &str) -> ! {
     die(msg)
+}
+
+/// `~registry/tokio-postgres-0.7.13/src/config.rs` → the file under ~/.cargo/registry/src/<index>/
+fn registry_path(rel: &str) -> String {
+    let home = std::env::var("CARGO_HOME").unwrap_or_else(|_| format!("{}/.cargo", std::env::var("HOME").unwrap_or_default()));
+    let base = format!("{}/registry/src", home);
+    if let Ok(rd) = std::fs::read_dir(&base) {
+        for e in rd.flatten() {
+            let p = format!("{}/{}", e.path().display(), rel);
+            if std::path::Path::new(&p).exists() {
+                return p;
+            }
+        }
+    }
+    format!("{}/{}", base, rel)
 }
